@@ -122,6 +122,13 @@ def seeded(args) -> int:
             shutil.rmtree(locals().get("side") or "/nonexistent", ignore_errors=True)
     for row in rows:
         print(" | ".join(row), flush=True)
+    # the catch matrix of the independently written changes, as measured by this run (merged by id)
+    mp = os.path.join(root, "matrix.json")
+    matrix = json.load(open(mp)) if os.path.exists(mp) else {}
+    for sid, prop, verdict, detail in rows:
+        matrix[sid] = {"property": prop, "verdict": verdict, "detail": detail, "tier": args.tier}
+    with open(mp, "w") as f:
+        json.dump(matrix, f, indent=1, sort_keys=True)
     return rc
 
 
